@@ -1,7 +1,8 @@
 CONSTANTS
-  Names = {"n1", "n2", "d1", "q1"}
-  DefaultNames = {"d1"}
-  Sids = {"s1", "s2"}
+  Names = {"n1", "n2", "n3", "d1", "d2", "q1", "q2", "u1"}
+  DefaultNames = {"d1", "d2"}
+  ParseNames = {"q1", "q2", "u1"}
+  Sids = {"s0", "s1", "s2", "s3"}
 SPECIFICATION Spec
 CONSTRAINT Report
 CHECK_DEADLOCK FALSE
